@@ -96,6 +96,10 @@ static long cpu_ms = 3000;
 
 typedef struct { void* p; void* base; size_t maplen; } obuf;
 
+/* every output buffer is pre-filled with g_fill; a case that reports OK is run a second time with another fill byte:
+ * the values it REPORTS as decoded must be the same (an element the decoder did not write is not a result) */
+static uint8_t g_fill = 0xA5;
+
 /* output buffer of exactly n bytes (see header comment) */
 static obuf out_alloc(size_t n) {
     obuf o = {0};
@@ -103,7 +107,7 @@ static obuf out_alloc(size_t n) {
         o.base = malloc(n);              /* malloc(0): a valid pointer to a zero-size object */
         if (!o.base) { fprintf(w_out, "SKIP harness-out-of-memory\n"); fflush(w_out); exit(0); }
         o.p = o.base;
-        if (n) memset(o.p, 0xA5, n);
+        if (n) memset(o.p, g_fill, n);
         return o;
     }
     size_t pg = 4096;
@@ -278,7 +282,9 @@ typedef struct {
 } kase;
 
 /* result of one execution */
-typedef struct { char line[2048]; } result;
+typedef struct { char line[2048]; uint64_t dig; int has_dig; } result;
+static uint64_t fnv(const void* p, size_t n) { const uint8_t* b = p; uint64_t h = 1469598103934665603ULL; for (size_t i = 0; i < n; i++) { h ^= b[i]; h *= 1099511628211ULL; } return h; }
+#define DIG(ptr, nbytes) do { if ((nbytes) <= BIG_EXACT) { r->dig = fnv((ptr), (nbytes)); r->has_dig = 1; } } while (0)
 
 #define RES(...) snprintf(r->line, sizeof r->line, __VA_ARGS__)
 
@@ -289,7 +295,7 @@ static void run_case(const kase* k, result* r, size_t* a0, size_t* a1) {
     const char* op = k->op;
     int64_t count = k->count;
     obuf o = {0}, o2 = {0};
-    r->line[0] = 0;
+    r->line[0] = 0; r->dig = 0; r->has_dig = 0;
 
 #define BEGIN() do { *a0 = __sanitizer_get_current_allocated_bytes(); arm(); } while (0)
 #define END()   do { disarm(); *a1 = __sanitizer_get_current_allocated_bytes(); } while (0)
@@ -299,7 +305,7 @@ static void run_case(const kase* k, result* r, size_t* a0, size_t* a1) {
         BEGIN(); int64_t got = carquet_rle_decode_all(in, n, (int)k->p, o.p, count); END();
         if (got < 0) RES("ERR %" PRId64, got);
         else if (got > (count > 0 ? count : 0)) RES("VIOL count-exceeds-max %" PRId64 " > %" PRId64, got, count);
-        else { char vb[900]; vals_u32(vb, sizeof vb, o.p, got); RES("OK %" PRId64 "%s", got, vb); }
+        else { char vb[900]; vals_u32(vb, sizeof vb, o.p, got); RES("OK %" PRId64 "%s", got, vb); DIG(o.p, (size_t)got * 4); }
     } else if (!strcmp(op, "rle_stream")) {
         /* the streaming decoder: get_batch / skip / get interleaved, at most count values in total */
         o = out_alloc(mulsz(count, 4));
@@ -343,7 +349,7 @@ static void run_case(const kase* k, result* r, size_t* a0, size_t* a1) {
         BEGIN(); int64_t got = carquet_rle_decode_levels(in, n, (int)k->p, o.p, count); END();
         if (got < 0) RES("ERR %" PRId64, got);
         else if (got > (count > 0 ? count : 0)) RES("VIOL count-exceeds-max %" PRId64 " > %" PRId64, got, count);
-        else { char vb[900]; vals_i16(vb, sizeof vb, o.p, got); RES("OK %" PRId64 "%s", got, vb); }
+        else { char vb[900]; vals_i16(vb, sizeof vb, o.p, got); RES("OK %" PRId64 "%s", got, vb); DIG(o.p, (size_t)got * 2); }
     } else if (!strcmp(op, "rle_levels_pref")) {
         o = out_alloc(mulsz(count, 2));
         size_t used = (size_t)-1;
@@ -353,7 +359,7 @@ static void run_case(const kase* k, result* r, size_t* a0, size_t* a1) {
         if (got < 0) { if (used != 0) RES("VIOL consumed-nonzero-on-error %zu", used); else RES("ERR %" PRId64, got); }
         else if (got > (count > 0 ? count : 0)) RES("VIOL count-exceeds-max %" PRId64 " > %" PRId64, got, count);
         else if (used > n) RES("VIOL consumed-exceeds-input %zu > %zu", used, n);
-        else { char vb[900]; vals_i16(vb, sizeof vb, o.p, got); RES("OK %" PRId64 " %zu%s", got, used, vb); }
+        else { char vb[900]; vals_i16(vb, sizeof vb, o.p, got); RES("OK %" PRId64 " %zu%s", got, used, vb); DIG(o.p, (size_t)got * 2); }
     } else if (!strncmp(op, "plain_", 6)) {
         const char* t = op + 6;
         size_t es = !strcmp(t, "bool") ? 1 : !strcmp(t, "i32") || !strcmp(t, "f32") ? 4 :
@@ -389,7 +395,7 @@ static void run_case(const kase* k, result* r, size_t* a0, size_t* a1) {
         else if (got < 0) RES("ERR %" PRId64, got);
         else if ((uint64_t)got > n) RES("VIOL consumed-exceeds-input %" PRId64 " > %zu", got, n);
         else if (!vok) RES("VIOL view-outside-input index %" PRId64, bad);
-        else RES("OK %" PRId64, got);
+        else { RES("OK %" PRId64, got); if (strcmp(t, "ba") && !(!strcmp(t, "disp") && k->p == 6) && count > 0) DIG(o.p, mulsz(count, es)); }
     } else if (!strcmp(op, "delta_i32") || !strcmp(op, "delta_i64")) {
         int is64 = op[7] == '6';
         int32_t nv = (int32_t)count;
@@ -401,7 +407,7 @@ static void run_case(const kase* k, result* r, size_t* a0, size_t* a1) {
         END();
         if (st != CARQUET_OK) RES("ERR %d", st);
         else if (used > n) RES("VIOL consumed-exceeds-input %zu > %zu", used, n);
-        else RES("OK %zu", used);
+        else { RES("OK %zu", used); if (nv > 0) DIG(o.p, mulsz(nv, is64 ? 8 : 4)); }
     } else if (!strcmp(op, "delta_len")) {
         int32_t nv = (int32_t)count;
         o = out_alloc(mulsz(nv, sizeof(carquet_byte_array_t)));
@@ -440,7 +446,7 @@ static void run_case(const kase* k, result* r, size_t* a0, size_t* a1) {
         END();
         if (vp == NULL && st == CARQUET_OK) RES("VIOL null-output-accepted");
         else if (st != CARQUET_OK) RES("ERR %d", st);
-        else RES("OK %" PRId64, count > 0 ? count : 0);
+        else { RES("OK %" PRId64, count > 0 ? count : 0); if (count > 0) DIG(o.p, mulsz(count, es)); }
     } else if (!strncmp(op, "dict_", 5)) {
         const char* t = op + 5;
         size_t es = !strcmp(t, "i32") || !strcmp(t, "f32") ? 4 : 8;
@@ -455,7 +461,7 @@ static void run_case(const kase* k, result* r, size_t* a0, size_t* a1) {
         END();
         if (st == -2) RES("SKIP unknown-op");
         else if (st != CARQUET_OK) RES("ERR %d", st);
-        else RES("OK %" PRId64, count > 0 ? count : 0);
+        else { RES("OK %" PRId64, count > 0 ? count : 0); if (count > 0) DIG(o.p, mulsz(count, es)); }
     } else if (!strcmp(op, "snappy") || !strcmp(op, "lz4")) {
         o = out_alloc(k->cap);
         size_t got = (size_t)-1; int st;
@@ -467,7 +473,7 @@ static void run_case(const kase* k, result* r, size_t* a0, size_t* a1) {
         if ((k->p & 3) && st == CARQUET_OK) st = -9;
         if (st != CARQUET_OK) RES("ERR %d", st);
         else if (got > k->cap) RES("VIOL size-exceeds-capacity %zu > %zu", got, k->cap);
-        else RES("OK %zu", got);
+        else { RES("OK %zu", got); DIG(o.p, got); }
     } else if (!strcmp(op, "gzip") || !strcmp(op, "zstd")) {
         /* zlib / libzstd are system libraries WITHOUT sanitizer instrumentation: a store they make past the
          * declared capacity is invisible to ASan even on an exact-size heap block.  The output therefore gets
@@ -478,7 +484,7 @@ static void run_case(const kase* k, result* r, size_t* a0, size_t* a1) {
         if (guard) {
             blk = malloc(k->cap + guard);
             if (!blk) { RES("SKIP harness-out-of-memory"); goto done_codec; }
-            memset(blk, 0xA5, k->cap);
+            memset(blk, g_fill, k->cap);
             for (size_t i = 0; i < guard; i++) blk[k->cap + i] = (uint8_t)(0xC3 ^ (i * 7));
             __asan_poison_memory_region(blk + k->cap, guard);
             dstp = blk;
@@ -503,7 +509,7 @@ static void run_case(const kase* k, result* r, size_t* a0, size_t* a1) {
                       nbad, k->cap, first_bad, st, st == CARQUET_OK ? got : 0);
         else if (st != CARQUET_OK) RES("ERR %d", st);
         else if (got > k->cap) RES("VIOL size-exceeds-capacity %zu > %zu", got, k->cap);
-        else RES("OK %zu", got);
+        else { RES("OK %zu", got); DIG(dstp, got); }
         free(blk);
 done_codec: ;
     } else if (!strcmp(op, "snappy_len")) {
@@ -686,9 +692,9 @@ static void worker_main(int fd_in, int fd_out) {
     char* line = NULL; size_t cap = 0; ssize_t len;
     while ((len = getline(&line, &cap, in)) >= 0) {
         while (len > 0 && (line[len-1] == '\n' || line[len-1] == '\r')) line[--len] = 0;
-        char* copy = strdup(line);
+        char* copy = strdup(line); char* copy3 = strdup(line);
         kase k; result r; size_t a0 = 0, a1 = 0;
-        if (!parse_case(line, &k)) { fprintf(w_out, "SKIP malformed-case\n"); fflush(w_out); free(copy); continue; }
+        if (!parse_case(line, &k)) { fprintf(w_out, "SKIP malformed-case\n"); fflush(w_out); free(copy); free(copy3); continue; }
         run_case(&k, &r, &a0, &a1);
         if (a1 > a0) {
             /* live heap grew across the call: one-time initialisation, or a leak?  run it again */
@@ -700,6 +706,20 @@ static void worker_main(int fd_in, int fd_out) {
                 snprintf(r.line, 512, "VIOL leak %zu bytes-left-allocated after=%s", b1 - b0, first);
             }
         }
+        if (r.has_dig && !strncmp(r.line, "OK", 2)) {
+            /* the same call once more over a differently pre-filled output: what is reported as decoded must not
+             * depend on what the buffer held before (unwritten elements reported as values) */
+            kase k3; result r3; size_t c0 = 0, c1 = 0;
+            parse_case(copy3, &k3);
+            g_fill = 0x5A;
+            run_case(&k3, &r3, &c0, &c1);
+            g_fill = 0xA5;
+            if (r3.has_dig && !strncmp(r3.line, "OK", 2) && r3.dig != r.dig)
+                snprintf(r.line, 512, "VIOL reported-values-depend-on-prior-buffer-content (elements reported as decoded were not written)");
+            else if (strncmp(r3.line, "OK", 2))
+                snprintf(r.line, 512, "VIOL result-not-deterministic second run: %.200s", r3.line);
+        }
+        free(copy3);
         free(copy);
         fprintf(w_out, "%s\n", r.line);
         fflush(w_out);
